@@ -493,6 +493,10 @@ def r09_3(facts, res):
     f = facts.fn(STRING_TRY)
     st["instances"] += 1
     lits = {m["v"] for m in walk(f["body"]) if m.get("k") == "Lit" and m.get("t") == "str"}
+    # the empty string may be spelled `"".to_string()`, `String::new()` or `String::default()`
+    if any(m.get("k") == "Call" and str(m["f"].get("path", "")) in ("std::string::String::new", "std::default::Default::default") and not m.get("args")
+           and "String" in str(m.get("ty", "")) for m in walk(f["body"])):
+        lits.add("")
     oks = {"true", "false", "Infinity", "-Infinity", ""} <= lits
     res.oblige(1, oks)
     if not oks:
